@@ -1699,7 +1699,15 @@ class _HTTPStorageServer:
 
         # Wait for all the queries to finish:
         for share_number, pending_result in pending_reads.items():
-            reads[share_number] = yield pending_result
+            try:
+                reads[share_number] = yield pending_result
+            except defer.FirstError as e:
+                # Like the Foolscap API, leave shares that do not exist out
+                # of the result instead of failing the whole read.
+                sub = e.subFailure.value
+                if isinstance(sub, ClientException) and sub.code == http.NOT_FOUND:
+                    continue
+                raise
 
         return reads
 
